@@ -10,7 +10,7 @@ PLAN = {
     'C05': ['harness.c04_roundtrip'],
     'C06': ['harness.c06_decoder'],
     'C07': ['harness.c07_evolution'],
-    'C08': ['harness.c08_validators'],
+    'C08': ['harness.c08_validators', 'harness.c08_generated'],
     'C11': ['harness.c11_layout'],
     'C13': ['harness.c13_privacy'],
     'C14': ['harness.c14_client'],
@@ -22,6 +22,7 @@ NEEDS_FIXTURES = {
     'harness.c04_roundtrip': True,
     'harness.c06_decoder': True,
     'harness.c07_evolution': True,
+    'harness.c08_generated': True,
     'harness.c13_privacy': True,
     'harness.c14_client': True,
     'harness.fe_examples': True,
